@@ -41,6 +41,34 @@ func probeSign(rrs []dns.RR, zone string) *dns.RRSIG {
 }
 
 func execProbe(f []string) vlib.Res {
+	if f[1] == "match" {
+		// p match <signer> <owner> <rrsig-labels> <type>: may an RRSIG with this Labels
+		// value vouch for an RRset of this type at this owner (signatureMatchesRRset)?
+		signer, owner, labels, t := parseName(f[2]), parseName(f[3]), atoi(f[4]), uint16(atoi(f[5]))
+		var rr dns.RR
+		hdr := dns.RR_Header{Name: owner.pres(), Rrtype: t, Class: dns.ClassINET, Ttl: 300}
+		switch t {
+		case dns.TypeNSEC:
+			rr = &dns.NSEC{Hdr: hdr, NextDomain: signer.pres(), TypeBitMap: []uint16{dns.TypeA}}
+		case dns.TypeNSEC3:
+			rr = &dns.NSEC3{Hdr: hdr, Hash: 1, HashLength: 20, NextDomain: "00000000000000000000000000000000"}
+		default:
+			rr = &dns.A{Hdr: hdr, A: []byte{192, 0, 2, 1}}
+		}
+		sig := &dns.RRSIG{Hdr: dns.RR_Header{Name: owner.pres(), Rrtype: dns.TypeRRSIG, Class: dns.ClassINET, Ttl: 300},
+			TypeCovered: t, Labels: uint8(labels), SignerName: signer.pres()}
+		got := dnssec.VerifC02SignatureMatches(sig, []dns.RR{rr})
+		// RFC 4035 2.3 / RFC 4592 4.6 written out: a denial record is never an expansion
+		eff := len(owner)
+		if eff > 0 && owner[0] == "*" {
+			eff--
+		}
+		or := "ok"
+		if got && (t == dns.TypeNSEC || t == dns.TypeNSEC3) && labels < eff {
+			or = "FAIL sig=probe/match/expanded-denial-record-accepted"
+		}
+		return vlib.Res{Impl: vlib.B(got), Oracle: or, Tags: "nt,probe"}
+	}
 	if f[1] != "expanded" {
 		return vlib.Res{Impl: "bad-op"}
 	}
@@ -86,7 +114,7 @@ func execProbe(f []string) vlib.Res {
 	r1, e1 := dnssec.EvaluateAggressiveNSEC(dns.Question{Name: q.pres(), Qtype: qtype, Qclass: dns.ClassINET}, zone, set)
 	impl := fmt.Sprintf("rrsig=%s exact=%s agg=%s", vlib.B(okSig && errSig == nil), errStr(verr), strings.Fields(aggResult(r1, e1, set))[0])
 	or := "ok"
-	if okSig && errSig == nil && (verr == nil || e1 == nil) {
+	if okSig && errSig == nil && (verr == nil || e1 == nil) && concrete[0] != "*" {
 		// a record that only exists as *.<zone> was accepted as the record OF a concrete name
 		or = "FAIL sig=probe/expanded-nsec-accepted-as-concrete-owner " + impl
 	}
